@@ -189,6 +189,11 @@ fn subsets(sites: &[usize], max: usize) -> Vec<Vec<usize>> {
     out
 }
 
+/// Resident set size of this process in KiB (0 when /proc is unreadable).
+pub fn rss_kb() -> u64 {
+    std::fs::read_to_string("/proc/self/statm").ok().and_then(|s| s.split_whitespace().nth(1).and_then(|x| x.parse::<u64>().ok())).map(|pages| pages * 4).unwrap_or(0)
+}
+
 pub fn explore<Sc: Scenario>(scn: &Sc, b: &Bounds) -> Report {
     let t0 = Instant::now();
     let store = Store::new();
@@ -228,6 +233,8 @@ pub fn explore<Sc: Scenario>(scn: &Sc, b: &Bounds) -> Report {
     rep.states = frontier.len() as u64;
     rep.level_sizes.push(frontier.len() as u64);
     let stop = AtomicBool::new(false);
+    let rss_hit = AtomicBool::new(false);
+    let rss_cap_kb: u64 = std::env::var("MC_RSS_CAP_GB").ok().and_then(|x| x.parse::<u64>().ok()).unwrap_or(36) << 20;
     let transitions = AtomicU64::new(0);
     let fault_transitions = AtomicU64::new(0);
     let agreed = AtomicU64::new(0);
@@ -259,6 +266,7 @@ pub fn explore<Sc: Scenario>(scn: &Sc, b: &Bounds) -> Report {
         let res_tx = res_tx.clone();
         let store = store.fork();
         let stop = &stop;
+        let rss_hit = &rss_hit;
         let visited = &visited;
         let transitions = &transitions;
         let fault_transitions = &fault_transitions;
@@ -286,6 +294,11 @@ pub fn explore<Sc: Scenario>(scn: &Sc, b: &Bounds) -> Report {
                                 break;
                             }
                             if t0.elapsed().as_secs_f64() > b.wall_cap_s {
+                                stop.store(true, Ordering::Relaxed);
+                                break;
+                            }
+                            if ni % 32 == 0 && rss_kb() > rss_cap_kb {
+                                rss_hit.store(true, Ordering::Relaxed);
                                 stop.store(true, Ordering::Relaxed);
                                 break;
                             }
@@ -462,7 +475,11 @@ pub fn explore<Sc: Scenario>(scn: &Sc, b: &Bounds) -> Report {
         rep.level_sizes.push(next.len() as u64);
         if stop.load(Ordering::Relaxed) {
             capped = true;
-            rep.caps_hit.push(format!("wall cap {}s hit inside depth {} (that level is incomplete and not counted as completed)", b.wall_cap_s, depth + 1));
+            if rss_hit.load(Ordering::Relaxed) {
+                rep.caps_hit.push(format!("memory cap {} GiB (process RSS) hit inside depth {} (that level is incomplete and not counted as completed)", rss_cap_kb >> 20, depth + 1));
+            } else {
+                rep.caps_hit.push(format!("wall cap {}s hit inside depth {} (that level is incomplete and not counted as completed)", b.wall_cap_s, depth + 1));
+            }
             break;
         }
         rep.depth_completed = depth + 1;
